@@ -156,6 +156,14 @@ class HSym(HBase):
         try:
             s2.add(solver.assertions())
             s2.add(*extra)
+            # prefer generic values (pairwise distinct inputs): ties only where the path forces them
+            terms = [s.t for name, s in c.inputs if isinstance(s, SymReal) and not s.is_int and s.c is None]
+            if 2 <= len(terms) <= 24:
+                s2.push()
+                s2.add(z3.Distinct(*terms))
+                if s2.check() == z3.sat:
+                    return s2.model()
+                s2.pop()
             if s2.check() == z3.sat:
                 return s2.model()
         except z3.Z3Exception:
